@@ -131,7 +131,10 @@ Definition event_of_code (c : Z) : event :=
   else if c =? 9 then EvOther true else if c =? 10 then EvOther false
   (* 11 / 12: request_port_forward granted / denied with a re-key completing (NEWKEYS processed) while the
      request is pending: the re-key is not an event of its own - it must not change the handler state *)
-  else if c =? 11 then EvForward true true else EvForward true false.
+  else if c =? 11 then EvForward true true else if c =? 12 then EvForward true false
+  (* 13 / 14: another channel request (get_pty) granted / refused: installs nothing, like EvOther;
+     15: cancel_port_forward answered with REQUEST_FAILURE: the handler is dropped all the same *)
+  else if c =? 13 then EvOther true else if c =? 14 then EvOther false else EvCancel true.
 
 (* (server_mode, kind, want_reply, srv_ok) -> [consulted; reply type or -1] *)
 Definition run_global (c : bool * list Z * bool * bool) : list Z :=
